@@ -1,6 +1,7 @@
 package main
 
 import (
+	"regexp"
 	"fmt"
 	"go/types"
 	"sort"
@@ -436,8 +437,14 @@ var pureList = map[string]bool{
 	"unicode/utf8.RuneLen": true, "unicode/utf8.RuneCountInString": true,
 }
 
+// read-only accessors of the Prometheus query AST (assumption A5): they compute a value from the node and write nothing
+var promASTAccessor = regexp.MustCompile(`^\(\*?github\.com/prometheus/prometheus/promql/parser(/posrange)?\.[A-Za-z]+\)\.(PositionRange|String|Type|Pretty|IsComparisonOperator|IsSetOperator|IsAggregator|IsAggregatorWithParam|IsOperator)$`)
+
 func pureExternal(name string) bool {
 	if pureList[name] {
+		return true
+	}
+	if promASTAccessor.MatchString(name) {
 		return true
 	}
 	// generic instances print as pkg.Fn[...]; strip instantiation
